@@ -53,3 +53,23 @@ def distinct(ev, L):
 @spec
 def sorted_by_time(ev, L):
     return all(L[k].time <= L[k + 1].time for k in range(len(L) - 1))
+
+
+class _Pairing:
+    def __init__(self, t):
+        self.g_channel, self.g_msgs = t[0], t[1]
+
+
+@spec
+def callres(ev, name, k):
+    import sys
+    rec = sys.modules["pyvc.concrete"].RECORDED.get(name, [])
+    v = rec[k]
+    if isinstance(v, list) and all(isinstance(x, tuple) and len(x) == 2 for x in v):
+        return [_Pairing(x) for x in v]
+    return v
+
+
+@spec
+def abs_equals_result(ev, a, b, ic, its, iks, iv):
+    return a.equals(b, ic, its, iks, iv)
